@@ -63,6 +63,13 @@ Definition wfixpoint {A} (w : wcodec A) : Prop :=
   forall b a, bytes_ok b = true -> wdec w b = Some a ->
     exists e, wenc w a = Some e /\ wdec w e = Some a.
 
+(* conditional byte-level fixed point, for Go decoders that accept values their own Marshal
+   refuses: whenever a decoded value re-encodes at all, the re-encoding decodes again to a value
+   with the same encoding, and is not longer than the input *)
+Definition wrefix {A} (w : wcodec A) : Prop :=
+  forall b a e, bytes_ok b = true -> wdec w b = Some a -> wenc w a = Some e ->
+    (length e <= length b)%nat /\ exists a', wdec w e = Some a' /\ wenc w a' = Some e.
+
 Definition wtrunc {A} (w : wcodec A) : Prop :=
   forall a e k, wwf w a = true -> wenc w a = Some e -> (k < length e)%nat ->
     wdec w (firstn k e) = None.
